@@ -13,7 +13,7 @@ import random
 import sys
 import warnings
 
-from harness import core, anngen
+from harness import core, anngen, project
 from harness.project import call, exc_info
 
 TOKENS = ["P", "K", "B", "[", "]", "(", ")", "{", "}", "<", ">", "?", "-", "+", "/", "^", "@", "#", "|", ":", ",", ".",
@@ -152,6 +152,11 @@ def deferred_event(pp, tid, value, slot, rnd, strict=True):
     o2, r2 = call(pp.mass, text, watchdog=2.0)
     o3, r3 = call(pp.comp, text, watchdog=2.0)
     ev["mass"], ev["comp"] = exc_info(o2, r2), exc_info(o3, r3)
+    # the same question again after other calls on the same TEXT (a text is immutable: the answer cannot change)
+    project.poison(pp, text)
+    o4, r4 = call(pp.mass, text, watchdog=2.0)
+    ev["massAgain"] = exc_info(o4, r4)
+    ev["massSame"] = bool(o2 == o4 and (o2 != "ret" or abs(r2 - r4) < 1e-9))
     # facts for the "silently counted as zero" clause: the unmodified peptide's mass / composition came back
     bare = "".join(A["seq"])
     ev["massUnchanged"] = bool(o2 == "ret" and abs(r2 - pp.mass(bare)) < 1e-9)
@@ -196,24 +201,9 @@ def run(tier, seed, rep):
     rnd = random.Random(seed)
     thorough = tier == "thorough"
     max_len = 5 if thorough else 4
-    total = exhaustive(max_len)
-    nstrings = sum(v[0] for v in total.values())
-    evs = bucket_events("X", total)
-    # random strings up to 40 tokens and single-token mutations of valid strings
-    buckets = {}
-    for i in range(200000 if thorough else 20000):
-        if i % 2:
-            s = "".join(rnd.choice(TOKENS) for _ in range(rnd.randint(1, 40)))
-        else:
-            s = mutate(rnd, anngen.render(anngen.annotation(rnd, 1, 8), rnd.random() < 0.5))
-        if sum(v[0] for kk, v in buckets.items() if "hang" in kk) >= 20:
-            break
-        k = outcome_of(pp, s)
-        b = buckets.setdefault(k, [0, []])
-        b[0] += 1
-        if len(b[1]) < 6:
-            b[1].append(s)
-    evs += bucket_events("R", buckets)
+    # the deferred-validation corpus comes first: these calls must see a process in which little has been parsed yet
+    # (whatever the library remembers between calls is then still small)
+    evs = []
     j = 0
     # vocabulary entries that exist but carry neither a mass nor a composition (read from the bundled OBO files by
     # harness/obo.py, not through the library), and wrong-case spellings of valid names placed AFTER the valid ones
@@ -231,6 +221,24 @@ def run(tier, seed, rep):
     for i in range(20000 if thorough else 2500):
         slot = rnd.choice(SLOTS[:6])
         evs.append(deferred_event(pp, f"G{i}", gen_value(rnd, slot), slot, rnd, strict=False))
+    total = exhaustive(max_len)
+    nstrings = sum(v[0] for v in total.values())
+    evs += bucket_events("X", total)
+    # random strings up to 40 tokens and single-token mutations of valid strings
+    buckets = {}
+    for i in range(200000 if thorough else 20000):
+        if i % 2:
+            s = "".join(rnd.choice(TOKENS) for _ in range(rnd.randint(1, 40)))
+        else:
+            s = mutate(rnd, anngen.render(anngen.annotation(rnd, 1, 8), rnd.random() < 0.5))
+        if sum(v[0] for kk, v in buckets.items() if "hang" in kk) >= 20:
+            break
+        k = outcome_of(pp, s)
+        b = buckets.setdefault(k, [0, []])
+        b[0] += 1
+        if len(b[1]) < 6:
+            b[1].append(s)
+    evs += bucket_events("R", buckets)
     # conformance of the TLA+ parser machine with the real parser on every short token string (evidence, not a verdict:
     # C09 does not say which malformed strings are rejected, so a divergence is recorded, never reported as a violation)
     r = core.model_check("MC_Parser", "MC_Parser.cfg", workers=8)
